@@ -176,6 +176,20 @@ fn make_state<R: Rh>(k: usize, rng: &mut Rng) -> (String, Vec<R::F>) {
         7 => ("alt-representation".into(), (0..w).map(|i| R::alt(rng.pick(&b), i + k)).collect()),
         8 => ("alt-representation-random".into(), (0..w).map(|i| R::alt(rng.below(p), i + k)).collect()),
         9 => ("iota".into(), (0..w).map(|i| R::new(i as u64 + (k / 12) as u64)).collect()),
+        10 => {
+            // fixed points of both S-boxes (0, 1, -1) reach the MDS layer of the first round unchanged; their
+            // Montgomery words are the extremes of the 32-bit limbs (1 -> low limb all ones, -1 -> high limb
+            // 2^32 - 2), so mixing them drives the limb recombination of the split MDS product to its carries
+            let v = k / 12;
+            let pos = (v / 4) % w;
+            let s: Vec<R::F> = match v % 4 {
+                0 => (0..w).map(|i| R::new(if i == pos { p - 1 } else { 1 })).collect(),
+                1 => (0..w).map(|_| R::new(if rng.next() % 2 == 0 { 1 } else { p - 1 })).collect(),
+                2 => (0..w).map(|_| R::new([0, 1, p - 1][(rng.next() % 3) as usize])).collect(),
+                _ => (0..w).map(|i| R::new(if i == pos { 1 } else { p - 1 })).collect(),
+            };
+            ("sbox-fixed-points".into(), s)
+        },
         11 if p == crate::hashers::P64 => ("mds-carry".into(), mds_carry_state::<R>(k / 12, rng)),
         _ => ("random".into(), (0..w).map(|_| R::new(rng.below(p))).collect()),
     }
